@@ -50,6 +50,51 @@ const char* kNastyEndpoints[] = {"198.51.100.7:99999999999999999999999999", "198
                                  "198.51.100.7:+80", "198.51.100.7: 80", "[::1]:80", "198.51.100.7:80:80", "198.51.100.7:0x50", "198.51.100.7:4294967296", "\x01\x02:7", "198.51.100.7:80\n", "host:\xd9\xa3\xd9\xa3"};
 constexpr std::size_t kNastyEndpointCount = sizeof kNastyEndpoints / sizeof kNastyEndpoints[0];
 
+// A validly encoded ANNOUNCE or CHUNK whose length fields lie: each u32 that holds the true length of a variable part is found in
+// the encoding by its value (layout-independent) and rewritten - one field huge, or two fields changed by opposite amounts so that
+// their sum is unchanged modulo 2^32 (the sum-wrap an unchecked 32-bit addition falls for), or off by a few bytes.
+std::vector<std::uint8_t> encoding_with_lying_lengths(sk::Rng& g, const en::PeerId& self) {
+    pr::Message m{};
+    m.version = static_cast<std::uint8_t>(g.pick<std::int64_t>({1, 2, 3, 4, 4}));
+    std::vector<std::uint32_t> truths;
+    if (g.chance(3, 4)) {
+        m.type = pr::MessageType::Announce;
+        pr::AnnouncePayload an{};
+        an.chunk_id = make_id(static_cast<std::uint8_t>(g.below(256)), 0x3a); an.peer_id = self;
+        an.endpoint = std::string(17, 'e'); an.manifest_uri = std::string(35, 'm'); an.assigned_shards = std::vector<std::uint8_t>(5, 3); an.ttl = std::chrono::seconds(600);
+        m.payload = an;
+        truths = {17, 35, 5};
+    } else {
+        m.type = pr::MessageType::Chunk;
+        pr::ChunkPayload cp{};
+        cp.chunk_id = make_id(static_cast<std::uint8_t>(g.below(256)), 0x3b); cp.data.assign(41, 0x44); cp.ttl = std::chrono::seconds(600);
+        m.payload = cp;
+        truths = {41};
+    }
+    auto bytes = pr::encode(m);
+    auto find_u32 = [&](std::uint32_t v) -> std::ptrdiff_t {
+        for (std::size_t i = 0; i + 4 <= bytes.size(); ++i) if (bytes[i] == (v >> 24) && bytes[i + 1] == ((v >> 16) & 255) && bytes[i + 2] == ((v >> 8) & 255) && bytes[i + 3] == (v & 255)) return static_cast<std::ptrdiff_t>(i);
+        return -1;
+    };
+    auto put_u32 = [&](std::ptrdiff_t at, std::uint32_t v) { if (at < 0) return; bytes[static_cast<std::size_t>(at)] = static_cast<std::uint8_t>(v >> 24); bytes[static_cast<std::size_t>(at) + 1] = static_cast<std::uint8_t>(v >> 16); bytes[static_cast<std::size_t>(at) + 2] = static_cast<std::uint8_t>(v >> 8); bytes[static_cast<std::size_t>(at) + 3] = static_cast<std::uint8_t>(v); };
+    std::vector<std::ptrdiff_t> at;
+    for (auto t : truths) at.push_back(find_u32(t));
+    const std::size_t a = g.below(truths.size()), b = (a + 1 + g.below(std::max<std::size_t>(truths.size() - 1, 1))) % truths.size();
+    switch (g.below(6)) {
+        case 0: put_u32(at[a], static_cast<std::uint32_t>(g.pick<std::int64_t>({0xffffffffLL, 0x80000000LL, 0x7fffffffLL, 0xfffffff0LL}))); break;
+        case 1: put_u32(at[a], truths[a] + static_cast<std::uint32_t>(g.pick<std::int64_t>({1, 2, 31, 4096}))); break;
+        case 2: put_u32(at[a], truths[a] - std::min<std::uint32_t>(truths[a], static_cast<std::uint32_t>(g.range(1, 5)))); break;
+        default: {
+            // opposite changes: the sum of the declared lengths is what it was, modulo 2^32
+            const std::uint32_t k = static_cast<std::uint32_t>(g.pick<std::int64_t>({1, 8, 16, 25, 4096}));
+            if (truths.size() > 1) { put_u32(at[a], truths[a] - k); put_u32(at[b], truths[b] + k); }   // a wraps below zero when k > its true length
+            else put_u32(at[a], truths[a] - k);
+            break;
+        }
+    }
+    return bytes;
+}
+
 Plan gen_c35(sk::Rng& r, Tier) {
     Plan p;
     gen_w4_knobs(p, r);
@@ -60,10 +105,10 @@ Plan gen_c35(sk::Rng& r, Tier) {
         const auto c = r.below(100);
         if (c < 12) { op.k = "t_pre_bytes"; op.a = {r.pick<std::int64_t>({0, 1, 31, 32, 33, 35, 36, 40, 700}), static_cast<std::int64_t>(r.below(3)), static_cast<std::int64_t>(r.below(1u << 30))}; }
         else if (c < 22) { op.k = "t_pre_len"; op.a = {r.pick<std::int64_t>({0, 1, 3, 19, 0x7fffffff, 0xffffffffLL, 65536, 1048576, 1048577, 16 << 20}), r.pick<std::int64_t>({0, 1, 19, 200}), static_cast<std::int64_t>(r.below(3))}; }
-        else if (c < 32) { op.k = "t_hs_shape"; op.a = {static_cast<std::int64_t>(r.below(7)), static_cast<std::int64_t>(r.below(3)), static_cast<std::int64_t>(r.below(1u << 30))}; }
+        else if (c < 32) { op.k = "t_hs_shape"; op.a = {r.chance(1, 4) ? 7 : static_cast<std::int64_t>(r.below(7)), static_cast<std::int64_t>(r.below(3)), static_cast<std::int64_t>(r.below(1u << 30))}; }
         else if (c < 62) {
             op.k = "t_session";  // three signed/unsigned actions on an established session, then how the peer leaves
-            op.a = {static_cast<std::int64_t>(r.below(13)), static_cast<std::int64_t>(r.below(13)), static_cast<std::int64_t>(r.below(13)),
+            op.a = {static_cast<std::int64_t>(r.below(14)), static_cast<std::int64_t>(r.below(14)), static_cast<std::int64_t>(r.below(14)),
                     static_cast<std::int64_t>(r.below(kManifestForgeries)), static_cast<std::int64_t>(r.below(3)), static_cast<std::int64_t>(r.below(1u << 30)), r.pick<std::int64_t>({1, 2, 3, 4, 4, 17})};
         }
         else if (c < 70) { op.k = "t_poison"; op.a = {static_cast<std::int64_t>(r.below(17)), r.chance(3, 4) ? 0 : static_cast<std::int64_t>(r.below(kManifestForgeries)), static_cast<std::int64_t>(r.below(3)), static_cast<std::int64_t>(r.below(1u << 30)), static_cast<std::int64_t>(r.below(2))}; }
@@ -223,6 +268,7 @@ void exec_c35(const Plan& p, Ctx& ctx) {
                         case 2: { m.type = pr::MessageType::TransportHandshake; m.payload = pr::TransportHandshakePayload{static_cast<std::uint32_t>(g.pick<std::int64_t>({0, 1, 0x7fffffff, 0x80000000LL, 0xffffffffLL})), 1, pr::kCurrentMessageVersion}; frame = pr::encode(m); break; }
                         case 3: { m.type = pr::MessageType::TransportHandshake; m.payload = pr::TransportHandshakePayload{me.pub, ref_find_invalid_handshake_nonce(me.id, e.daemon_id, me.pub, std::max(e.hs_bits, 1)), pr::kCurrentMessageVersion}; frame = pr::encode(m); break; }
                         case 4: break;  // empty frame
+                        case 7: { frame = encoding_with_lying_lengths(g, me.id); ctx.boundary("pre_handshake_frame_with_lying_lengths"); break; }
                         case 5: { m.type = pr::MessageType::TransportHandshake; m.version = static_cast<std::uint8_t>(g.pick<std::int64_t>({0, 9, 255})); m.payload = pr::TransportHandshakePayload{me.pub, 1, static_cast<std::uint8_t>(g.below(256))}; frame = pr::encode(m); break; }
                         default: { m.type = pr::MessageType::TransportHandshake; m.payload = pr::TransportHandshakePayload{me.pub, 1, pr::kCurrentMessageVersion}; frame = pr::encode(m); if (frame.size() > 3) frame.resize(frame.size() - 1 - g.below(3)); break; }  // truncated payload
                     }
@@ -277,6 +323,15 @@ void exec_c35(const Plan& p, Ctx& ctx) {
                         case 7: { std::uint8_t hdr[16] = {}; const std::uint32_t len = static_cast<std::uint32_t>(g.pick<std::int64_t>({0, 0xffffffffLL, 0x7fffffff, 1048577, 70000})); hdr[12] = len >> 24; hdr[13] = len >> 16; hdr[14] = len >> 8; hdr[15] = len; ok = c.send_all(hdr, 16); std::uint8_t some[40] = {}; c.send_all(some, sizeof some); break; }  // length field lies
                         case 8: { pr::Message m{}; m.type = pr::MessageType::Acknowledge; m.payload = pr::AcknowledgePayload{make_id(static_cast<std::uint8_t>(g.below(256)), 0x36), me.id, g.chance(1, 2)}; ok = send(m); break; }
                         case 9: { pr::Message m{}; m.type = g.chance(1, 2) ? pr::MessageType::TransportHandshake : pr::MessageType::HandshakeAck; if (m.type == pr::MessageType::TransportHandshake) m.payload = pr::TransportHandshakePayload{me.pub, 1, 4}; else m.payload = pr::HandshakeAckPayload{true, 4, me.pub}; ok = send(m); break; }
+                        case 13: {
+                            // a correctly signed message (exact MAC over exactly these bytes) whose inner length fields lie
+                            auto body = encoding_with_lying_lengths(g, me.id);
+                            const auto mac = en::crypto::HmacSha256::compute(std::span<const std::uint8_t>(c.key), std::span<const std::uint8_t>(body));
+                            body.insert(body.end(), mac.begin(), mac.end());
+                            ok = c.send_plain(body);
+                            ctx.boundary("signed_message_with_lying_lengths");
+                            break;
+                        }
                         case 10: ok = announce(forged_foreign, uri_foreign, g.pick<std::int64_t>({0, -5, 4000000000LL, 1}), std::string(g.pick<std::int64_t>({0, 70000}), 'h'), std::vector<std::uint8_t>(static_cast<std::size_t>(g.pick<std::int64_t>({0, 255, 300})), 9)); break;
                         default: { pr::Message m{}; m.type = pr::MessageType::Announce; pr::AnnouncePayload an{}; an.chunk_id = foreign.chunk_id; an.peer_id = me.id; an.endpoint = "1.2.3.4:5"; an.ttl = std::chrono::seconds(600);
                                    const char* uris[] = {"eph://", "eph://!!!!", "eph://AAAA", "notaneph", ""}; an.manifest_uri = uris[g.below(5)]; if (g.chance(1, 3)) an.manifest_uri = "eph://" + std::string(100000, 'A'); ref_solve_announce_pow(an, e.announce_bits); m.payload = an; ok = send(m); break; }
